@@ -361,12 +361,13 @@ def finish(res, rule, assumptions, trusted_base, level="proof", extra=None):
     """Write evidence, print VIOLATION / KNOWN-FINDING lines, return exit code."""
     lines = []
     for what, replay in res.violations:
-        path = write_replay(res.prop, res.seed, dict(property=res.prop, what=what, replay=replay,
+        path = write_replay(res.prop, res.seed, dict(property=res.prop, what=what, tier=res.tier, seed=res.seed, replay=replay,
                                                     replay_cmd="%s vf.py replay %s <this file>" % (PY, res.prop)))
         lines.append("VIOLATION property=%s replay=%s" % (res.prop, path))
     if not res.violations:
         for what in res.no_input:
-            path = write_replay(res.prop, res.seed, dict(property=res.prop, broken=what,
+            path = write_replay(res.prop, res.seed, dict(property=res.prop, broken=what, tier=res.tier, seed=res.seed,
+                                                        replay_cmd="%s vf.py replay %s <this file>" % (PY, res.prop),
                                                         note="no failing input found by the search; the property is no longer shown to hold"))
             lines.append("VIOLATION property=%s replay=%s no-failing-input-found" % (res.prop, path))
     for k in res.known:
@@ -432,6 +433,17 @@ def proof_stage(res, prop, extra_targets=()):
             if badax:
                 raise MachineryError("theorem %s depends on non-whitelisted axioms %s" % (n, badax))
         res.discharged = len(names)
+        if res.tier == "thorough":
+            # independent re-check of the compiled files (and everything they depend on) with coqchk
+            rc, out = sh(["timeout", "3000", "coqchk", "-silent", "-o", "-R", ".", "PV", "PV.Props.%s" % prop], 3100, cwd=COQ)
+            summary = out[out.find("CONTEXT SUMMARY"):] if "CONTEXT SUMMARY" in out else out[-1500:]
+            res.notes["coqchk"] = summary[-2500:]
+            res.checker_cmd += " && coqchk -silent -o -R . PV PV.Props.%s" % prop
+            if rc != 0 or "CONTEXT SUMMARY" not in out:
+                broken.append("coqchk rejected Props/%s.vo or one of its dependencies" % prop)
+            for bad in ("type-in-type: <none>", "unsafe (co)fixpoints: <none>", "positivity is assumed: <none>"):
+                if "CONTEXT SUMMARY" in out and bad not in " ".join(summary.split()):
+                    raise MachineryError("coqchk reports a disabled kernel check: " + summary[-600:])
     return broken
 
 
